@@ -15,6 +15,7 @@ const hx_case *hx_current_case = NULL;
 const char *hx_crash_dir = NULL;
 static volatile int crash_dumped = 0;
 
+static void site_name_fwd(void *pc, char *out, size_t cap);
 void hx_crash_dump(const char *why) {
     if (crash_dumped) return;
     crash_dumped = 1;
@@ -25,7 +26,14 @@ void hx_crash_dump(const char *why) {
         if (f) { hx_case_write(f, hx_current_case); fclose(f); }
     }
     fflush(stdout);
-    printf("\nCRASH {\"why\":\"%s\",\"case\":%lld,\"file\":\"%s\"}\n", why, hx_current_case ? (long long) hx_current_case->id : -1LL, path);
+    {
+        extern uint64_t hx_current_k, hx_current_k2;
+        extern __thread void *hxa_failed_site;
+        char sn[128] = "";
+        if (hx_current_k) site_name_fwd(hxa_failed_site, sn, sizeof sn);
+        printf("\nCRASH {\"why\":\"%s\",\"case\":%lld,\"file\":\"%s\",\"k\":%llu,\"k2\":%llu,\"site\":\"%s\"}\n", why, hx_current_case ? (long long) hx_current_case->id : -1LL, path,
+               (unsigned long long) hx_current_k, (unsigned long long) hx_current_k2, sn);
+    }
     fflush(stdout);
 }
 
@@ -49,6 +57,109 @@ static void install_handlers(void) {
 }
 
 int hx_mutate_main(int argc, char **argv);
+
+/* ---- hx fail: allocation-fault enumeration (C18).  For every case: count the allocations A of the fault-free
+ * run, then one run per k in 1..A (optionally strided, optionally with a second failure at k+j) with the k-th
+ * allocation of the library failing.  Memory errors are judged by the sanitizer (the process dies; the CRASH line
+ * carries case and k so the driver restarts after it); API-contract breaches by the online monitors. ---- */
+extern int __sanitizer_symbolize_pc(void *pc, const char *fmt, char *out_buf, size_t out_buf_size) __attribute__((weak));
+uint64_t hx_current_k = 0, hx_current_k2 = 0;
+
+extern __thread void *hxa_failed_stack[20];
+extern __thread int hxa_failed_stack_n;
+
+/* name of the library function whose allocation failed: the innermost frame that is not one of the generic
+ * allocation helpers (bstr_*, list/table constructors), so that signatures name the real owner of the error path */
+static void site_name(void *pc, char *out, size_t cap) {
+    static const char *generic[] = { "should_fail", "hxw_", "__interceptor_", "__sanitizer", "bstr_", "htp_list_array_", "htp_table_create", "htp_table_add", "_htp_table_add", "backtrace", "htp_uri_alloc", NULL };
+    out[0] = 0;
+    if (pc == NULL) { snprintf(out, cap, "none"); return; }
+    if (!__sanitizer_symbolize_pc) { snprintf(out, cap, "pc"); return; }
+    char first[128] = "";
+    for (int i = 0; i < hxa_failed_stack_n; i++) {
+        char fn[128] = "";
+        __sanitizer_symbolize_pc((char *) hxa_failed_stack[i] - 1, "%f", fn, sizeof fn);
+        if (!fn[0] || !strcmp(fn, "<null>")) continue;
+        int gen = 0;
+        for (int g = 0; generic[g]; g++) if (!strncmp(fn, generic[g], strlen(generic[g]))) gen = 1;
+        if (!strncmp(fn, "bstr_builder_", 13)) gen = 1;
+        if (!first[0] && strncmp(fn, "should_fail", 11) && strncmp(fn, "hxw_", 4) && strncmp(fn, "backtrace", 9) && strncmp(fn, "__interceptor_", 14) && strncmp(fn, "__sanitizer", 11)) snprintf(first, sizeof first, "%s", fn);
+        if (!gen) { if (!strcmp(fn, first)) snprintf(out, cap, "%s", fn); else snprintf(out, cap, "%s>%s", fn, first); return; }
+    }
+    snprintf(out, cap, "%s", first[0] ? first : "pc");
+}
+
+static void site_name_fwd(void *pc, char *out, size_t cap) { site_name(pc, out, cap); }
+
+static int fail_main(int argc, char **argv) {
+    if (argc < 1) return 2;
+    hx_batch b;
+    if (hx_batch_load(argv[0], &b) != 0) { fprintf(stderr, "hx fail: cannot load %s\n", argv[0]); return 2; }
+    int64_t start_case = 0, start_k = 1;
+    int stride = 1, pairs = 0;
+    for (int i = 1; i < argc; i++) {
+        if (!strcmp(argv[i], "--start-case") && i + 1 < argc) start_case = atoll(argv[++i]);
+        else if (!strcmp(argv[i], "--start-k") && i + 1 < argc) start_k = atoll(argv[++i]);
+        else if (!strcmp(argv[i], "--stride") && i + 1 < argc) stride = atoi(argv[++i]);
+        else if (!strcmp(argv[i], "--pairs") && i + 1 < argc) pairs = atoi(argv[++i]);
+        else if (!strcmp(argv[i], "--crash-dir") && i + 1 < argc) hx_crash_dir = argv[++i];
+    }
+    uint64_t runs = 0, allocs_total = 0, refused = 0;
+    hx_stats tot;
+    memset(&tot, 0, sizeof tot);
+    hx_buf sites = { 0 };
+    for (size_t ci = (size_t) start_case; ci < b.ncases; ci++) {
+        hx_case *c = &b.cases[ci];
+        c->cfg[CF_DUMP] = 0;
+        hx_result r0;
+        hx_result_init(&r0);
+        hxa_fail_at = hxa_fail_at2 = 0;
+        hxa_alloc_count = 0;
+        hx_current_case = c;
+        hx_current_k = hx_current_k2 = 0;
+        hx_run(c, &r0);
+        uint64_t A = hxa_alloc_count;
+        hx_result_free(&r0);
+        allocs_total += A;
+        printf("P {\"case\":%u,\"allocations\":%llu}\n", c->id, (unsigned long long) A);
+        for (uint64_t k = (ci == (size_t) start_case ? (uint64_t) start_k : 1); k <= A; k++) {
+            if (stride > 1 && ((k + c->id) % (uint64_t) stride) != 0) continue;
+            for (int j = 0; j <= pairs; j++) {
+                hx_result r;
+                hx_result_init(&r);
+                hxa_fail_at = k;
+                hxa_fail_at2 = j ? k + (uint64_t) j : 0;
+                hxa_failed_site = hxa_failed_site2 = NULL;
+                hxa_alloc_count = 0;
+                hx_current_k = k;
+                hx_current_k2 = hxa_fail_at2;
+                alarm(120);
+                hx_run(c, &r);
+                alarm(0);
+                runs++;
+                char sn[128];
+                site_name(hxa_failed_site, sn, sizeof sn);
+                if (hxa_failed_site == NULL) refused++;
+                else if (!strstr(sites.p ? sites.p : "", sn) && sites.n < 6000) { if (sites.n) hb_puts(&sites, ","); hb_printf(&sites, "\"%s\"", sn); }
+                for (int v = 0; v < r.nviol; v++) {
+                    if (!strcmp(r.viol[v].prop, "C01") && !strcmp(r.viol[v].key, "leak")) continue;
+                    printf("V {\"case\":%u,\"k\":%llu,\"k2\":%llu,\"site\":\"%s\",\"prop\":\"%s\",\"key\":\"%s\",\"detail\":\"", c->id, (unsigned long long) k, (unsigned long long) hxa_fail_at2, sn, r.viol[v].prop, r.viol[v].key);
+                    for (const char *q = r.viol[v].detail; *q; q++) if (*q != '"' && *q != '\\' && (unsigned char) *q >= 0x20) putchar(*q);
+                    printf("\"}\n");
+                }
+                hx_stats_add(&tot, &r.st);
+                hx_result_free(&r);
+            }
+        }
+    }
+    hxa_fail_at = hxa_fail_at2 = 0;
+    hx_current_case = NULL;
+    printf("S {\"runs\":%llu,\"allocations_in_fault_free_runs\":%llu,\"fault_not_reached\":%llu,\"api_calls\":%llu,\"errors_returned\":%llu,\"failed_sites\":[%s]}\n",
+           (unsigned long long) runs, (unsigned long long) allocs_total, (unsigned long long) refused, (unsigned long long) tot.api_calls, (unsigned long long) tot.api_rc[3], sites.p ? sites.p : "");
+    hb_free(&sites);
+    hx_batch_free(&b);
+    return 0;
+}
 
 static void print_viol(FILE *f, const hx_case *c, const hx_result *r) {
     hx_buf b = { 0 };
@@ -126,6 +237,7 @@ int main(int argc, char **argv) {
     else if (strcmp(argv[1], "show") == 0) rc = show_main(argc - 2, argv + 2);
     else if (strcmp(argv[1], "seg") == 0) rc = hx_seg_main(argc - 2, argv + 2);
     else if (strcmp(argv[1], "mutate") == 0) rc = hx_mutate_main(argc - 2, argv + 2);
+    else if (strcmp(argv[1], "fail") == 0) rc = fail_main(argc - 2, argv + 2);
     else fprintf(stderr, "hx: unknown mode %s\n", argv[1]);
     fflush(stdout);
     return rc;
